@@ -39,7 +39,43 @@ def h_bytes(hx):
     bits.frombytes(data)
     hx.prove(enc == Trellis34.encode(bits), "encode(bytes) == encode(bits of the same block)")
     hx.prove(Trellis34.decode(enc, as_bytes=True) == data, "decode(encode(bytes), as_bytes=True) == bytes")
+    keep = enc.copy()
+    enc.invert(0)
+    enc.invert(195)
+    hx.prove(Trellis34.encode(data) == keep, "encode(bytes) is unaffected by in-place changes to a previously returned stream")
     hx.cover("bytes")
+
+
+def h_sequence(hx):
+    """decoding is stateless: after decoding an ACCEPTED stream whose last (flushing) tribit is arbitrary, and after a rejected one,
+    a valid codeword still decodes to its block"""
+    t = array("B", [hx.int(3, "t%d" % i) for i in range(49)])          # any tribit sequence, last one not forced to 0
+    pts = Trellis34.tribits_to_points(t)
+    stream = Trellis34.dibits_to_bits(Trellis34.interleave(Trellis34.points_to_dibits(pts)))
+    st, r = hx.guard(Trellis34.decode, stream)
+    hx.prove(st == "ok", "a stream built from any 49 tribits is accepted")
+    x = hx.ba(144, "x")
+    hx.prove(Trellis34.decode(Trellis34.encode(x)) == x, "decode(encode(x)) == x right after decoding another accepted stream (no state carried over)")
+    bad = Trellis34.encode(x)
+    bad.invert(hx.concretize(hx.int(2, "pos")) * 50)
+    hx.guard(Trellis34.decode, bad)
+    hx.prove(Trellis34.decode(Trellis34.encode(x)) == x, "decode(encode(x)) == x right after a damaged stream was decoded or rejected")
+    hx.cover("sequence")
+
+
+def h_state(hx):
+    """light-weight companion of h_sequence: the first stream is the all-zero tribit sequence with an ARBITRARY last (flushing) tribit,
+    or a rejected stream; afterwards three concrete blocks must still round-trip"""
+    t = array("B", [0] * 48 + [hx.concretize(hx.int(3, "last"))])          # declared 8-way split on the final tribit
+    stream = Trellis34.dibits_to_bits(Trellis34.interleave(Trellis34.points_to_dibits(Trellis34.tribits_to_points(t))))
+    st, r = hx.guard(Trellis34.decode, stream)
+    hx.prove(st == "ok", "a valid point sequence with any final tribit is accepted")
+    for name, block in (("zeros", bitarray("0" * 144)), ("ones", bitarray("1" * 144)), ("pattern", bitarray("110100101" * 16))):
+        st2, d = hx.guard(Trellis34.decode, Trellis34.encode(block))
+        hx.prove(st2 == "ok", "block %s: a valid codeword is accepted after another stream was decoded" % name)
+        if st2 == "ok":
+            hx.prove(d == block, "block %s: decode(encode(x)) == x after another stream was decoded (no state carried over)" % name)
+    hx.cover("state")
 
 
 def h_perm(hx):
@@ -103,6 +139,8 @@ def cases(tier, seed):
     out = [Case("roundtrip-bits", "h_bits", {}, covers=["bits"], budget_s=600, opts=SWEEP, bounds="144 symbolic bits"),
            Case("roundtrip-bytes", "h_bytes", {}, covers=["bytes"], budget_s=600, opts=SWEEP, bounds="18 symbolic octets"),
            Case("permutation", "h_perm", {}, covers=["perm"], budget_s=120, bounds="98 symbolic 8-bit entries"),
+           Case("call-sequence-state", "h_state", {}, covers=["state"], budget_s=120, bounds="first stream: zero tribits with a symbolic final tribit; then three concrete blocks"),
+           Case("call-sequence", "h_sequence", {}, covers=["sequence"], budget_s=300, opts=SWEEP, bounds="49 symbolic tribits + 144 symbolic bits; damaged stream: one inverted bit at 4 positions"),
            Case("layers", "h_layers", {}, covers=["layers"], budget_s=300, bounds="196 symbolic bits / 49 symbolic points / 144 symbolic bits")]
     for pos in range(49):
         out.append(Case("reject-pos%02d" % pos, "h_reject", dict(pos=pos), covers=["rejected", "accepted"], budget_s=600,
